@@ -63,7 +63,7 @@ EDIT_WEIGHTS = {
 def gen_case(run_seed: int, tier: str, index: int = 0) -> dict:
     r = Streams(run_seed).rng("workload")
     params = dict(
-        p_graphs=Streams(run_seed).rng("graphs-attr").choice([0.0, 0.0, 0.12, 0.25]), more_ops=Streams(run_seed).rng("more-ops").random() < 0.5, n_nodes=r.choice([1, 3, 5, 8, 12]), n_inputs=r.choice([0, 1, 2]), n_inits=r.choice([0, 1, 2, 3]), n_outputs=r.choice([1, 2]),
+        p_graphs=Streams(run_seed).rng("graphs-attr").choice([0.0, 0.0, 0.12, 0.25]), ref_graph_attrs=Streams(run_seed).rng("ref-graph-attrs").choice([0.0, 0.0, 0.6]), more_ops=Streams(run_seed).rng("more-ops").random() < 0.5, n_nodes=r.choice([1, 3, 5, 8, 12]), n_inputs=r.choice([0, 1, 2]), n_inits=r.choice([0, 1, 2, 3]), n_outputs=r.choice([1, 2]),
         n_functions=r.choice([0, 1, 2]), depth=r.choice([0, 1, 2]), typed=r.random() < 0.7, unsorted=r.random() < 0.2, p_if=r.choice([0.15, 0.35]),
         metadata=r.random() < 0.6, init_as_input=r.choice([0.0, 0.4]), ir_version=r.choice([10, 11]), name_style=r.choice([0, 0, 1]),
     )  # fmt: skip
@@ -159,7 +159,7 @@ def _internal_objects(g) -> dict:
     return internal
 
 
-def _tensor_states(model) -> dict:
+def _tensor_states(model, extra=()) -> dict:
     """Own fields of every tensor object the model reaches (a clone may share these objects; it never writes them)."""
     out: dict = {}
 
@@ -192,6 +192,8 @@ def _tensor_states(model) -> dict:
                     add(o.const_value, f"output {o.name!r}")
     for f in model.functions.values():
         attrs(f"function {f.name!r}", f.attributes)
+    for t in extra:  # tensors that an edit may have made unreachable from the model (they can still be shared)
+        add(t, "a Constant attribute tensor that is also its output's const_value")
     return out
 
 
@@ -217,9 +219,13 @@ def _only_shared_attribute_tensor_renamed(before: dict, planted: set, serialize,
         except Exception:  # noqa: BLE001
             return False
         if now != st:
-            if id(t) not in planted or now[1:] != st[1:]:
+            if now[1:] != st[1:]:
                 return False
-            changed.append((t, st[0]))
+            if id(t) in planted:
+                changed.append((t, st[0]))
+            # (the name of any other shared tensor - an initializer's - may follow its value's name: initializers are
+            # written under the value's name, so that cannot show in the serialized form; if it does, the comparison
+            # below fails and the difference is reported as an ordinary violation)
     if not changed:
         return False
     for t, name in changed:
@@ -299,6 +305,7 @@ def run_case(case: dict) -> dict:
                 v.type = ir.SequenceType(inner) if i % 2 else ir.OptionalType(ir.SequenceType(inner))
                 inc("nested_typed_values")
     planted: set = set()
+    planted_objs: list = []
     if Streams(case["run_seed"]).rng("const-outputs").random() < 0.5:
         # what constant propagation leaves behind: node outputs that know their constant tensor - the very tensor object
         # the Constant node's attribute holds, under its own name (tensors may be shared with a clone, never written)
@@ -309,6 +316,7 @@ def run_case(case: dict) -> dict:
                 if n.op_type == "Constant" and a_ is not None and not a_.is_ref() and a_.type == ir.AttributeType.TENSOR and n.outputs:
                     n.outputs[0].const_value = a_.value
                     planted.add(id(a_.value))
+                    planted_objs.append(a_.value)
                     inc("const_valued_node_outputs")
     kind = case["clone"]
     inc("clone_" + kind)
@@ -544,7 +552,7 @@ def run_case(case: dict) -> dict:
         before = snapshot.snapshot(other, tensors=False)
         if protos[1 - side] is None:
             protos[1 - side] = (_proto_bytes(sides[1 - side]),)
-        tensors_b = _tensor_states(model) if planted else {}
+        tensors_b = _tensor_states(model, planted_objs) if planted else {}
         r = ops.apply_op(target, op)
         trace.append((side, op[0], r[0], r[1] if r[0] == "raise" else None))
         if r[0] == "ok":
